@@ -1331,7 +1331,7 @@ static void DecodeShift(Word Code) {
             BAsmCode[CodeLen++] = 0x10 | DestReg;
             BAsmCode[CodeLen++]
                     = Code | (IsASL ? 0x00 : 0x10) | ((ImmCnt & 1) << 3) | OpAdrVals.Arg;
-            BAsmCode[CodeLen++] = 0x70 | ((ImmCnt >> 1) & 7);
+            BAsmCode[CodeLen++] = 0x70 | ((ImmCnt >> 1) & 0x0f);
         }
 
         /* REG-OPR1/2/3 - ASL only */
